@@ -445,6 +445,87 @@ theorem subsetSize_eq (kp rdy : List Peer) (thr : Int) (h0 : 0 ≤ thr)
   rw [if_pos ⟨by omega, h⟩]
   omega
 
+/-! ### (i') release rule on an object that is run again; what the resharing tells the library; per-input sessions -/
+
+/-- **re-runs.** For every sequence of runs of one Signing object, the signature is released iff the LATEST run was
+    given the coordinator role — an earlier role never sticks -/
+theorem releaseAfterRuns_last (roles : List Bool) :
+    releaseAfterRuns roles = roles.getLast?.map releaseECDSA := by
+  cases roles with
+  | nil => rfl
+  | cons c cs =>
+    simp only [releaseAfterRuns, afterRuns, Option.map_some]
+    induction cs generalizing c with
+    | nil => rfl
+    | cons d ds ih =>
+      simp only [List.foldl_cons, SigningObj.run]
+      rw [ih d]; simp [List.getLast?_cons_cons]
+
+/-- in particular: coordinator first, then not ⇒ nothing but `nil` leaves this process -/
+theorem rerun_role_moved_away (pre : List Bool) : releaseAfterRuns (pre ++ [false]) = some .nil := by
+  rw [releaseAfterRuns_last]; simp [releaseECDSA]
+
+/-- the library is told the OLD threshold of the start parameters for the old sharing and the process's own NEW
+    threshold for the new one — whatever their order (raising, lowering, equal) -/
+theorem reshareParams_thresholds (kp store : List Peer) (thr nthr : Int) :
+    (reshareParams (startParams kp thr store) nthr store).oldThreshold = thr ∧
+    (reshareParams (startParams kp thr store) nthr store).newThreshold = nthr ∧
+    (reshareParams (startParams kp thr store) nthr store).newCount = store.length := ⟨rfl, rfl, rfl⟩
+
+section Hex
+private theorem hexDigit_inj : ∀ a, a < 16 → ∀ b, b < 16 → hexDigit a = hexDigit b → a = b := by decide
+
+theorem toHex_injective (a b : Bytes) (h : toHex a = toHex b) : a = b := by
+  have h' : (a.flatMap fun x => [hexDigit (x.toNat / 16), hexDigit (x.toNat % 16)]) =
+      (b.flatMap fun x => [hexDigit (x.toNat / 16), hexDigit (x.toNat % 16)]) := by
+    simpa [toHex] using congrArg String.toList h
+  clear h
+  induction a generalizing b with
+  | nil => cases b with
+    | nil => rfl
+    | cons y ys => simp at h'
+  | cons x xs ih =>
+    cases b with
+    | nil => simp at h'
+    | cons y ys =>
+      simp only [List.flatMap_cons, List.cons_append, List.nil_append, List.cons.injEq] at h'
+      obtain ⟨h1, h2, h3⟩ := h'
+      have hx := x.toNat_lt
+      have hy := y.toNat_lt
+      have e1 := hexDigit_inj _ (by omega) _ (by omega) h1
+      have e2 := hexDigit_inj _ (Nat.mod_lt _ (by decide)) _ (Nat.mod_lt _ (by decide)) h2
+      have : x = y := UInt8.toNat_inj.1 (by omega)
+      rw [this, ih ys h3]
+end Hex
+
+/-- **one session per input.** Each signing process runs under the hex of the digest it signs … -/
+theorem btcSignings_own (digests : List Bytes) : ∀ s ∈ btcSignings digests, s.sessionId = toHex s.msg := by
+  intro s hs; simp only [btcSignings, List.mem_map] at hs; obtain ⟨d, _, rfl⟩ := hs; rfl
+
+/-- … there are as many as inputs, signing exactly the inputs' digests … -/
+theorem btcSignings_msgs (digests : List Bytes) : (btcSignings digests).map (·.msg) = digests := by
+  induction digests with
+  | nil => rfl
+  | cons d ds ih => simpa [btcSignings] using ih
+
+/-- … and pairwise different digests (inputs of one transaction commit to their index) give pairwise different
+    session ids: no two signings of a transaction can share a session -/
+theorem btcSignings_ids_nodup (digests : List Bytes) (h : digests.Nodup) :
+    ((btcSignings digests).map (·.sessionId)).Nodup := by
+  induction digests with
+  | nil => simp [btcSignings]
+  | cons d ds ih =>
+    rw [List.nodup_cons] at h
+    simp only [btcSignings, List.map_cons, List.map_map, List.nodup_cons, List.mem_map, Function.comp_apply,
+      not_exists, not_and] at ih ⊢
+    refine ⟨fun x hx heq => ?_, ih h.2⟩
+    exact h.1 (toHex_injective _ _ heq ▸ hx)
+
+example : releaseAfterRuns [true, false] = some .nil ∧ releaseAfterRuns [false, true] = some .sig ∧
+    releaseAfterRuns [] = none := by decide
+
+example : ((btcSignings [[1, 2], [1, 3]]).map (·.sessionId)) = ["0102", "0103"] := by decide
+
 /-! ### non-vacuity -/
 
 theorem sortPeers_of_sorted (l : List Peer) (h : l.Pairwise (fun a b => keyLE a b)) : sortPeers l = l :=
